@@ -78,10 +78,16 @@ bool splay_check(const Tree* t, const Tree*& out_tmin, const Tree*& out_tmax,
         !splay_check(t->right, tmin, out_tmax, cmp))
         return false;
 
-    if (tmax && !cmp(tmax->key, t->key))
+    // keys may be equal when the tree holds duplicates
+    if (tmax && cmp(t->key, tmax->key))
         return false;
-    if (tmin && !cmp(t->key, tmin->key))
+    if (tmin && cmp(tmin->key, t->key))
         return false;
+    // report the extreme nodes of this subtree to the caller
+    if (t->left == nullptr)
+        out_tmin = t;
+    if (t->right == nullptr)
+        out_tmax = t;
     return true;
 }
 
